@@ -219,6 +219,36 @@ func (e *env) onMessage(c *websocket.Conn, mt websocket.MessageType, data []byte
 	}
 }
 
+// onPing: control-frame callbacks go through the same per-connection queue as
+// the message callbacks: they must not overlap them, and a ping is handled in
+// wire order (after every message completed before it).
+func (e *env) onPing(c *websocket.Conn, data string) {
+	bump()
+	rec := e.rec(c)
+	in := atomic.AddInt32(&rec.insideMsg, 1)
+	t := e.log.Add("ping.entry", rec.key, 0, fmt.Sprintf("%q inside=%d", data, in))
+	defer func() {
+		e.log.Add("ping.exit", rec.key, 0, "")
+		atomic.AddInt32(&rec.insideMsg, -1)
+	}()
+	cls := e.clsOf(rec)
+	if in > 1 {
+		e.violate("c14:"+cls+":ping-callback-overlaps-message-callback", fmt.Sprintf("connection %s: the ping callback (%q) was entered at t=%d while %d other callback(s) of the connection were running\nevents of the connection:\n%s", rec.key, data, t, in-1, e.log.Slice(rec.key, 40)))
+	}
+	var seq, i, last int
+	if n, _ := fmt.Sscanf(data, "p%d.%d.%d", &seq, &i, &last); n == 3 {
+		need := int64(seq)
+		if last == 1 {
+			need++
+		}
+		if got := atomic.LoadInt64(&rec.nextSeq); got < need && atomic.LoadInt32(&rec.forced) == 0 {
+			e.violate("c14:"+cls+":ping-callback-before-earlier-message-callback", fmt.Sprintf("connection %s: the ping %q was sent after message seq %d was complete on the wire, but its callback was entered at t=%d when only %d messages had been delivered\nevents of the connection:\n%s", rec.key, data, need-1, t, got, e.log.Slice(rec.key, 40)))
+		}
+	}
+	e.r.Count("ping_callbacks", 1)
+	_ = c.WriteMessage(websocket.PongMessage, []byte(data))
+}
+
 func (e *env) onClose(c *websocket.Conn, err error) {
 	bump()
 	rec := e.rec(c)
@@ -310,6 +340,7 @@ func (e *env) startServer() (addr string, stop func(), err error) {
 	up.BlockingModAsyncWrite = c.Queued
 	up.OnOpen(e.onOpen)
 	up.OnMessage(e.onMessage)
+	up.SetPingHandler(e.onPing)
 	up.OnClose(e.onClose)
 	up.CheckOrigin = func(r *http.Request) bool { return true }
 	e.up = up
